@@ -304,7 +304,7 @@ def scenarios(tier, seed):
     else:
         for kind in ("curve", "surface"):
             for shapes in ([(3, 1), (2, 1)], [(4, 2), (3, 2)], [(2, 2), (3, 3), (4, 1)], [(4, 3), (4, 3)],
-                           [(3, 1), (3, 1), (3, 1)]):
+                           [(3, 1), (3, 1), (3, 1)], [(3, 2), (2, 1), (4, 3), (3, 1)], [(5, 4), (4, 2)]):
                 k = len(shapes)
                 for vd, cd in (([True] * k, [True] * k), ([True] + [False] * (k - 1), [False] * (k - 1) + [True]),
                                ([False] * (k - 1) + [True], [False] * k)):
@@ -315,6 +315,8 @@ def scenarios(tier, seed):
                     S.append(Merge(kind=kind, shapes=shapes, vdata=[True] * len(shapes), extras=list(ex)))
         S += [Merge(kind="surface", shapes=[(4, 2), (4, 2)], vdata=[False, True], cdata=[True, False], cell_data_name="d"),
               Merge(kind="curve", shapes=[(3, 2), (2, 1), (3, 3)], vdata=[True, False, True], cdata=[False, True, True], cell_data_name="d")]
+        S += [Merge(kind=k_, shapes=sh_, vdata=[True] * len(sh_), cdata=[True] * len(sh_), stored=True)
+              for k_, sh_ in (("curve", [(3, 2), (2, 1), (3, 2)]), ("surface", [(4, 2), (3, 1)]), ("points", [(2, 0), (3, 0), (2, 0)]))]
         S += [DrapeMerge(shapes=[[2, 1], [1, 2], [1, 1]], data=[True, False, True]), DrapeMerge(shapes=[[1, 1], [2, 2]]),
               DrapeMerge(shapes=[[2, 2], [1, 1], [3, 1], [1, 2]], data=[True, True, False, True])]
         for shapes in ([(2, 0), (1, 0), (2, 0)], [(4, 0), (4, 0)], [(1, 0), (1, 0), (1, 0), (1, 0)]):
